@@ -457,7 +457,8 @@ pub fn encgraph(args: &[String]) {
                     // two "huf" blocks in a row: the second one has the histogram of the first (a rotation of it), which is
                     // what makes the previous table eligible for treeless literals
                     let prev_huf = fr.wanted.last().map(|w| w[0] == "huf" || w[0] == "hufraw" || w[0] == "nohuf").unwrap_or(false) && fr.data.len() >= BLOCK;
-                    if (cls == "huf" || cls == "hufraw") && prev_huf {
+                    // (a block that is to fall back to raw gets fresh data of its class: a NEW table that is then discarded)
+                    if (cls == "huf" || cls == "hufraw") && prev_huf && !(fb && cls == "huf" && fr.wanted.last().map(|w| w[1] == false).unwrap_or(false)) {
                         let prev = fr.data[fr.data.len() - BLOCK..].to_vec();
                         let mut b: Vec<u8> = prev[1000..].to_vec();
                         b.extend_from_slice(&prev[..1000]);
